@@ -77,3 +77,39 @@ Definition verify_ok pubt vert (c : verify_case) : bool :=
     (do _ <- container_sizes (vc_cont c);
      authorizer_for (opub pubt) (overify vert) (vc_keys c) (vc_cont c))
     (vc_obs c).
+
+(* ---------- expressions (C06) ---------- *)
+From BV Require Import Term Expr.
+
+Fixpoint orx (t : list (bytes * bytes * option bool)) (pat subj : bytes) : option bool :=
+  match t with
+  | [] => None
+  | (p, s, r) :: t' => if bytes_eqb p pat && bytes_eqb s subj then r else orx t' pat subj
+  end.
+
+Definition to_obs {A} (r : res A) : obs A :=
+  match r with Ok a => OOk a | Err e => OErr e | Panic _ => OPanic end.
+Definition obs_eqb {A} (eqb : A -> A -> bool) (a b : obs A) : bool :=
+  match a, b with
+  | OOk x, OOk y => eqb x y
+  | OErr e, OErr f => err_eqb e f
+  | OPanic, OPanic => true
+  | _, _ => false
+  end.
+Notation eI := (OErr EIllTyped).
+Notation bT := (OOk (TA (ABool true))).
+Notation bF := (OOk (TA (ABool false))).
+
+Definition bin_row_ok rx (panel : list term) (row : binop * N * list (obs term)) : bool :=
+  let '(o, i, obsl) := row in
+  match nthN panel i with
+  | Some l => list_eqb (obs_eqb term_seqb) (map (fun r => to_obs (eval_binary rx o l r)) panel) obsl
+  | None => false
+  end.
+Definition un_row_ok (rx : bytes -> bytes -> option bool) (panel : list term) (row : unop * list (obs term)) : bool :=
+  let '(u, obsl) := row in
+  list_eqb (obs_eqb term_seqb) (map (fun v => to_obs (eval_unary u v)) panel) obsl.
+
+Record expr_case := { ec_ops : expr; ec_bind : bindings; ec_obs : obs term }.
+Definition expr_ok rx (c : expr_case) : bool :=
+  obs_eqb term_seqb (to_obs (eval rx (ec_ops c) (ec_bind c))) (ec_obs c).
